@@ -13,6 +13,12 @@ TB = ("Trusted: Lean 4.33 kernel (axioms propext, Classical.choice, Quot.sound o
       "with -DNLOPT_VERIF) incl. its canonicalisation (doubles as bit patterns, NaN payloads ignored, block/data "
       "pointers as ledger ids); the C compiler and libm. ")
 
+DRV = (" Driver control-flow models (CRS, ISRES, ESCH, Nelder-Mead, AUGLAG, MLSL, MMA/CCSAQ: Model/*Driver.lean, Props/Drv*.lean) "
+       "prove the budget, forced-stop, returned-pair, best-point and stopval statements for every event sequence and arithmetic, "
+       "and every run of these algorithms made by the check is replayed through its driver model (code, x, minf bitwise); for ESCH, "
+       "CRS, Nelder-Mead and unconstrained ISRES the driver is also packaged as an algorithm machine with an arbitrary proposer and the "
+       "statements are lifted through the wrapper theorems to the model of nlopt_optimize itself (Props/E2E*.lean).")
+
 CHECKS = {
     "C19": dict(
         category="proof",
@@ -51,16 +57,16 @@ def W(text): return text
 
 CHECKS.update({
     "C01": dict(category="proof",
-        text="Lean 4 proofs: the comparison clamps that sit directly in front of the user callback at the COBYLA, BOBYQA, bounded-NEWUOA, rescaled-DIRECT, original-DIRECT, Nelder-Mead/Sbplx and PRAXIS sites deliver a point inside [lb,ub] for EVERY box (finite, half-infinite, infinite, degenerate), every dimension and every non-NaN proposal of the numeric core, for every arithmetic; a coordinate with lb = ub is delivered equal to the bound; dimension elimination writes the fixed coordinates from lb bit for bit for every subset of fixed coordinates and every algorithm machine (elim_equiv). Tie: the wrapper model is replayed against every recorded run (S-wrap) and the site models map the hook-recorded proposals to the points the user saw (S-glue). The in-box monitor covers every callback of every algorithm incl. nested ones.",
+        text="Lean 4 proofs: the comparison clamps that sit directly in front of the user callback at the COBYLA, BOBYQA, bounded-NEWUOA, rescaled-DIRECT, original-DIRECT, Nelder-Mead/Sbplx and PRAXIS sites deliver a point inside [lb,ub] for EVERY box (finite, half-infinite, infinite, degenerate), every dimension and every non-NaN proposal of the numeric core, for every arithmetic; a coordinate with lb = ub is delivered equal to the bound; dimension elimination writes the fixed coordinates from lb bit for bit for every subset of fixed coordinates and every algorithm machine (elim_equiv). Tie: the wrapper model is replayed against every recorded run (S-wrap) and the site models map the hook-recorded proposals to the points the user saw (S-glue). The in-box monitor covers every callback of every algorithm incl. nested ones. rescale.c (the coordinate scaling of COBYLA / BOBYQA) is modelled statement by statement (Model/Rescale.lean) and compared bit for bit with the library on every run (rescale stream); Props/C01Rescale.lean proves the scale vector's shape, that the re-ordered scaled box is never inverted, and that unscale followed by the clamp against the ORIGINAL bounds lands in the box for every scale and arithmetic.",
         design="3/C01", note=TB + "Modelled, not verified: the numeric cores are arbitrary proposers of non-NaN points; sites without a modelled clamp in front of the callback (SLSQP, Luksan, the unscaled cdirect centers, StoGO, AGS, affine samplers) are monitor-only (evidence unproved_sites). Known findings: Luksan TNEWTON* finite-difference step, SLSQP NaN iterates. Fixed by commits: COBYLA/BOBYQA unscale clamp, x_bound, rescaled and unscaled cdirect, original DIRECT.",
         technique="Lean 4 proof (order lemmas on the IEEE bit pattern; simulation over arbitrary algorithm machines) + site-level and wrapper-level differential correspondence"),
     "C02": dict(category="proof",
-        text="Lean 4 proofs over the wrapper model of nlopt_optimize for an ARBITRARY algorithm machine: for the memoized families (COBYLA, TNEWTON*) the returned (x, opt_f) is bit-for-bit the first best in-box evaluation with the sign restored; no wrapper alters the algorithm's x / minf beyond expansion and sign; on every rejection x is untouched; the n = 0 object makes exactly one evaluation. Tie: every recorded run of the real library is replayed through the model (x, opt_f, code, user trace bitwise). Monitor: returned x bitwise in the objective trace with its value, inside the box, STOPVAL_REACHED only when reached, for all algorithms and early exits.",
+        text="Lean 4 proofs over the wrapper model of nlopt_optimize for an ARBITRARY algorithm machine: for the memoized families (COBYLA, TNEWTON*) the returned (x, opt_f) is bit-for-bit the first best in-box evaluation with the sign restored; no wrapper alters the algorithm's x / minf beyond expansion and sign; on every rejection x is untouched; the n = 0 object makes exactly one evaluation. Tie: every recorded run of the real library is replayed through the model (x, opt_f, code, user trace bitwise). Monitor: returned x bitwise in the objective trace with its value, inside the box, STOPVAL_REACHED only when reached, for all algorithms and early exits." + DRV + "",
         design="3/C02", note=TB + "Not modelled: the incumbent bookkeeping inside f2c / third-party cores (monitor only). Known findings: original DIRECT with constraints and no feasible sample (opt_f = +Inf), AUGLAG when the first subsidiary run ends ROUNDOFF_LIMITED, constrained COBYLA returning x re-derived with last-bit differences. Fixed by commits: NEWUOA L530, original DIRECT final x, memo copy-back.",
         technique="Lean 4 proof (invariant over runAlg for arbitrary algorithms; running-minimum fold) + replay correspondence"),
     "C05": dict(category="proof",
-        text="Lean 4 proof (memo_returns_best_evaluated): for COBYLA and the truncated-Newton family, for every algorithm machine, opt_f is the minimum over the in-box evaluations (first minimiser, strict improvement rule), sign restored when maximizing. Controlled Random Search: the population rule of crs.c (insert every initial point; a trial replaces the worst member iff it is strictly better; report the tree minimum) is modelled (Model/Crs.lean) and proved to report the best value ever evaluated for every initial population and trial sequence (Props/C05Crs.lean: crs_best_is_min, crs_result_mono; NaN witness); every CRS run is replayed through that model (inc stream). The list of memoized algorithms is pinned (Props/C05.lean). For the other listed incumbent-keeping algorithms the running-minimum monitor compares opt_f with the in-bounds trace on every run (budget sweep 1..N, converged runs); the wrapper replay shows no layer changes the algorithm's result.",
-        design="3/C05", note=TB + "The incumbent rules inside BOBYQA/NEWUOA/DIRECT/ISRES/ESCH/StoGO/NM/Sbplx/PRAXIS are not modelled (monitor only). Fixed by commits: BOBYQA roundoff exit, memo copy-back, PRAXIS.",
+        text="Lean 4 proof (memo_returns_best_evaluated): for COBYLA and the truncated-Newton family, for every algorithm machine, opt_f is the minimum over the in-box evaluations (first minimiser, strict improvement rule), sign restored when maximizing. Controlled Random Search: the population rule of crs.c (insert every initial point; a trial replaces the worst member iff it is strictly better; report the tree minimum) is modelled (Model/Crs.lean) and proved to report the best value ever evaluated for every initial population and trial sequence (Props/C05Crs.lean: crs_best_is_min, crs_result_mono; NaN witness); every CRS run is replayed through that model (inc stream). The list of memoized algorithms is pinned (Props/C05.lean). For the other listed incumbent-keeping algorithms the running-minimum monitor compares opt_f with the in-bounds trace on every run (budget sweep 1..N, converged runs); the wrapper replay shows no layer changes the algorithm's result." + DRV + "",
+        design="3/C05", note=TB + "The incumbent rules inside BOBYQA/NEWUOA/DIRECT/StoGO/Sbplx/PRAXIS are not modelled (monitor only); those of CRS, ESCH, Nelder-Mead and ISRES are (driver models). Fixed by commits: BOBYQA roundoff exit, memo copy-back, PRAXIS.",
         technique="Lean 4 proof for the memoized families and the CRS population rule + running-minimum monitor + replay correspondence"),
     "C07": dict(category="proof",
         text="Lean 4 proof (optimize_preserves_settings): for every algorithm machine, user and return path the object's user-visible settings after nlopt_optimize equal those before (maximize flip and stopval sign undone via neg(neg s) = s on the bit pattern, an unset initial step stays unset); determinism of the model is by construction, its premise for the code is the regenerated table of writable globals (no_hidden_state, rng_and_timer_are_tls over nm/readelf of the fresh build). Monitor: the same problem in two processes, twice on one object (reseeded) and on a copy gives bitwise equal traces and results; getter snapshots before = after on every path.",
@@ -97,11 +103,11 @@ CHECKS.update({
 
 CHECKS.update({
     "C03": dict(category="proof",
-        text="Lean 4 proofs over a transcription of stop.c and of the limit plumbing of optimize.c: nlopt_stop_evals fires exactly from the maxeval-th counted evaluation on (iff, monotone in the count), nlopt_stop_time is monotone in the clock under a monotone subtraction, maxeval <= 0 / maxtime <= 0 mean no limit, MAXEVAL/MAXTIME are sound (reported only when the budget is used up), the override rule of nlopt_optimize_limited is the minimum of the two budgets when both are positive (incl. the zero-budget-means-unlimited hazard, stated), and nlopt_get_numevals is the algorithm's counter for every algorithm machine. Tie: the stop predicates are evaluated by model and library on the same inputs (S-stop stream, virtual clock through the hook), every recorded run is replayed through the wrapper model. Monitor with calibrated per-family overshoot bounds: for every algorithm and nesting the number of objective evaluations after the limit, the reported code (MAXEVAL/MAXTIME only when the budget is used up), numevals = counted evaluations, and termination under a watchdog, incl. NaN/Inf objective values.",
+        text="Lean 4 proofs over a transcription of stop.c and of the limit plumbing of optimize.c: nlopt_stop_evals fires exactly from the maxeval-th counted evaluation on (iff, monotone in the count), nlopt_stop_time is monotone in the clock under a monotone subtraction, maxeval <= 0 / maxtime <= 0 mean no limit, MAXEVAL/MAXTIME are sound (reported only when the budget is used up), the override rule of nlopt_optimize_limited is the minimum of the two budgets when both are positive (incl. the zero-budget-means-unlimited hazard, stated), and nlopt_get_numevals is the algorithm's counter for every algorithm machine. Tie: the stop predicates are evaluated by model and library on the same inputs (S-stop stream, virtual clock through the hook), every recorded run is replayed through the wrapper model. Monitor with calibrated per-family overshoot bounds: for every algorithm and nesting the number of objective evaluations after the limit, the reported code (MAXEVAL/MAXTIME only when the budget is used up), numevals = counted evaluations, and termination under a watchdog, incl. NaN/Inf objective values." + DRV + "",
         design="3/C03", note=TB + "The position of the limit tests inside each numeric core is monitored (bounded overshoot per family), not proved. Known findings: COBYLA (and algorithms nesting it) after a huge / non-finite objective value, CCSAQ with a preconditioner after an infinite value, AGS with constraints counts trials, StoGO for boxes far from the origin. Fixed by commits: CRS limits, AUGLAG sub-budget, AGS crash, MMA/CCSA NaN guard (NEWUOA hang).",
         technique="Lean 4 proof (stop predicates, budget arithmetic) + stop-stream correspondence + overshoot monitor"),
     "C04": dict(category="proof",
-        text="Lean 4 proofs over the wrapper model for an ARBITRARY algorithm machine: the stop request raised in a callback is visible to the algorithm in the very next answer (stop_request_forwarded), no layer swallows it, every wrapper passes the algorithm's FORCED_STOP code and x through unchanged, the flag value set by nlopt_set_force_stop is stored verbatim and cleared at the start of the next run. Tie: runs with a stop raised at callback k are replayed through the model. Monitor: for every algorithm and k, FORCED_STOP is returned, at most a family-specific number of further callbacks occurs, the next run on the same object starts clean.",
+        text="Lean 4 proofs over the wrapper model for an ARBITRARY algorithm machine: the stop request raised in a callback is visible to the algorithm in the very next answer (stop_request_forwarded), no layer swallows it, every wrapper passes the algorithm's FORCED_STOP code and x through unchanged, the flag value set by nlopt_set_force_stop is stored verbatim and cleared at the start of the next run. Tie: runs with a stop raised at callback k are replayed through the model. Monitor: for every algorithm and k, FORCED_STOP is returned, at most a family-specific number of further callbacks occurs, the next run on the same object starts clean." + DRV + "",
         design="3/C04", note=TB + "Where each core tests the flag is monitored, not proved. Fixed by commits: CRS initial population, Luksan, NEWUOA, AGS, StoGO, BOBYQA, the problem without free variables (model updated with the code: zero_dim_forced_stop).",
         technique="Lean 4 proof (flag propagation through arbitrary algorithm machines) + replay correspondence + per-k monitor"),
     "C06": dict(category="proof",
